@@ -23,7 +23,8 @@
      removed since (C10/ConfigSpec.v, 40 lines).  [obs] merges the three
      "nothing removed" result classes. *)
 From MptV Require Import Base.Mem C10.ConfigModel C10.ConfigSpec C10.PathProofs C10.PathAdd C10.PathBin C10.TreeQuery
-  C10.TreeOps C10.TreeAssign C10.StoreRefine C10.ItemProofs C10.RootRefine C10.TreeView C10.ViewRefine C10.ApiRefine C10.AssignNone C10.MetaSet.
+  C10.TreeOps C10.TreeAssign C10.StoreRefine C10.ItemProofs C10.RootRefine C10.TreeView C10.ViewRefine C10.ApiRefine C10.AssignNone C10.MetaSet
+  C10.PathLast C16.Locate C10.LocateModel C10.LocateProofs.
 
 (* ---- paths ---- *)
 
@@ -472,6 +473,99 @@ Example C10_meta_set_example :
   meta_set_cell (CText (bs [1])) ABad = (MErr, CText (bs [1]), false).
 Proof. vm_compute. repeat split; reflexivity. Qed.
 
+(* ---- coverage round 6: mpt_path_last / mpt_path_del (separator mode), mpt_node_locate ---- *)
+
+(* mpt_path_last on ANY well-formed non-empty path (any offset - after mpt_path_next calls -, with or
+   without array storage and post data): the path becomes exactly its last element, whose length is
+   returned and whose bytes lie inside the storage; the end of the path does not move *)
+Theorem C10_path_last_element : forall p, pwf p -> plen p <> 0 ->
+  exists e p', path_last p = Done (length e, p') /\
+    e = last (elems p) [] /\ pwf p' /\ elems p' = [e] /\
+    rdn (pbase p') (poff p') (length e) = Done e /\ same_store p p' /\
+    poff p' + plen p' = poff p + plen p.
+Proof. exact path_last_spec. Qed.
+
+(* mpt_path_del on ANY well-formed non-empty path: exactly the last element is removed (its length is
+   returned), the elements in front stay, the post data is gone (an array is cut behind the path) *)
+Theorem C10_path_del_element : forall p, pwf p -> plen p <> 0 ->
+  exists e p', path_del p = Done (length e, p') /\
+    e = last (elems p) [] /\ elems p' = removelast (elems p) /\ pwf p' /\
+    pkeep p' = false /\ poff p' = poff p /\ psep p' = psep p /\
+    (parr p = true -> length (pbase p') = poff p' + plen p').
+Proof. exact path_del_spec. Qed.
+
+(* mpt_node_locate on ANY sibling list (names, nameless identifiers, pointer identifiers, any character
+   sets), from any node of it, for any key: the result is the k-th node whose identifier matches, counted
+   forwards from the start node (pos = k > 0), backwards before it (pos = -k), or the last match of the
+   whole list (pos = 0) *)
+Theorem C10_locate_kth_match : forall ids s p k,
+  s < length ids -> (klen k = 0 \/ kptr k <> 0) ->
+  (match p with LFwd c | LBwd c => 1 <= c | LLast => True end) ->
+  node_locate ids (Some s) p k = res_of (locate_kth ids s p k).
+Proof. exact node_locate_kth. Qed.
+
+Theorem C10_locate_finds_matching_node : forall ids s p k i,
+  s < length ids -> (klen k = 0 \/ kptr k <> 0) ->
+  (match p with LFwd c | LBwd c => 1 <= c | LLast => True end) ->
+  node_locate ids (Some s) p k = LFound i ->
+  exists n, nth_error ids i = Some n /\ kmatch k n = true /\
+    match p with LFwd _ => s <= i | LBwd _ => i < s | LLast => True end.
+Proof. exact node_locate_sound. Qed.
+
+(* the key mpt_node_query uses (charset -1): against a stored name it is equality of the name bytes - any
+   bytes, any length -, and an identifier of another character set never matches *)
+Theorem C10_locate_default_key_is_name_equality : forall nm key,
+  kmatch (key_of_name key) (ident_of_name nm) = bytes_eqb nm key.
+Proof. exact kmatch_name. Qed.
+
+Theorem C10_locate_skips_other_charsets : forall key cs d, cs <> 1 -> kmatch (key_of_name key) (cs, d) = false.
+Proof. exact kmatch_other_charset. Qed.
+
+(* the search by which the store model walks one level (find_idx: every theorem about the store above goes
+   through it) IS mpt_node_locate(first, 1, name, length, -1) on the identifiers of that level ... *)
+Theorem C10_store_lookup_is_node_locate : forall nm l, l <> [] ->
+  node_locate (map (fun k => ident_of_name (nname' k)) l) (Some 0) (LFwd 1) (key_of_name nm) =
+  res_of (option_map fst (find_idx nm l 0)).
+Proof. exact store_lookup_is_node_locate. Qed.
+
+(* ... and the loop of node_query.c around that call computes mpt_node_query of the store model *)
+Theorem C10_node_query_is_locate_loop : forall f p, lquery (map lift_node f) p = node_query f p.
+Proof. exact lquery_is_node_query. Qed.
+
+Example C10_locate_example :
+  let bs := map N.of_nat in
+  let ids := [ident_of_name (bs [97]); ident_nameless 2; ident_of_name (bs [98]); (4, IPtr 1);
+              ident_of_name (bs [97]); ident_of_name (bs [97; 98]); ident_of_name (bs [97])] in
+  node_locate ids (Some 0) (LFwd 1) (key_of_name (bs [97])) = LFound 0 /\
+  node_locate ids (Some 0) (LFwd 2) (key_of_name (bs [97])) = LFound 4 /\
+  node_locate ids (Some 1) (LFwd 2) (key_of_name (bs [97])) = LFound 6 /\
+  node_locate ids (Some 6) (LBwd 2) (key_of_name (bs [97])) = LFound 0 /\
+  node_locate ids (Some 2) LLast (key_of_name (bs [97])) = LFound 6 /\
+  node_locate ids (Some 2) LLast (key_of_name (bs [98])) = LFound 2 /\
+  node_locate ids (Some 0) (LFwd 1) (key_of_name (bs [99])) = LNone /\
+  node_locate ids (Some 0) (LFwd 1) (mklkey (Some 0) 9 (bs [0; 0]) 2) = LFound 1 /\
+  node_locate ids (Some 0) (LFwd 1) (mklkey (Some 4) 1 [] 0) = LFound 3 /\
+  node_locate ids (Some 0) (LFwd 1) (mklkey (Some 4) 2 [] 0) = LNone /\
+  node_locate ids (Some 0) (LFwd 1) (mklkey (Some 1) 9 (bs [97; 0]) 2) = LFound 0 /\
+  node_locate ids None (LFwd 1) (key_of_name (bs [97])) = LEfault /\
+  node_locate ids (Some 0) (LFwd 1) (mklkey None 0 [] 1) = LEfault.
+Proof. vm_compute. repeat split; reflexivity. Qed.
+
+Example C10_path_last_del_example :
+  let bs := map N.of_nat in
+  let p0 := path_init 46%N 0%N in
+  match path_set p0 (Some (bs [97; 46; 98; 99; 46; 100; 0])) None with
+  | Done (p, _) =>
+    match path_next p with
+    | Done (_, p1) =>
+      (match path_last p1 with Done (n, q) => n = 1 /\ pwalk q = Done [bs [100]] | _ => False end) /\
+      (match path_del p1 with Done (n, q) => n = 1 /\ pwalk q = Done [bs [98; 99]] | _ => False end)
+    | _ => False
+    end
+  | _ => False
+  end.
+Proof. vm_compute. repeat split; reflexivity. Qed.
+
 Print Assumptions C10_path_elements.
 Print Assumptions C10_path_elements_string.
 Print Assumptions C10_string_key.
@@ -507,3 +601,11 @@ Print Assumptions C10_meta_set_reads_back.
 Print Assumptions C10_meta_set_refused_changes_nothing.
 Print Assumptions C10_meta_set_releases_replaced_only.
 Print Assumptions C10_meta_set_refines_spec.
+Print Assumptions C10_path_last_element.
+Print Assumptions C10_path_del_element.
+Print Assumptions C10_locate_kth_match.
+Print Assumptions C10_locate_finds_matching_node.
+Print Assumptions C10_locate_default_key_is_name_equality.
+Print Assumptions C10_locate_skips_other_charsets.
+Print Assumptions C10_store_lookup_is_node_locate.
+Print Assumptions C10_node_query_is_locate_loop.
